@@ -137,3 +137,13 @@ func vfPreemptions(n int) {}
 // vfRaceDetect switches the engine's happens-before race detector on; natively the replay of a
 // reported race runs under `go test -race`.
 func vfRaceDetect() {}
+
+// vfSingleP: natively, run the rest of the harness on one processor (so that sync.Pool hands an
+// object put by one goroutine to the next one that asks, as the engine's pool model does) and
+// return the function that restores the setting; under the engine a no-op.
+func vfSingleP() func() {
+	old := runtime.GOMAXPROCS(1)
+	return func() { runtime.GOMAXPROCS(old) }
+}
+
+func vfNoop() {}
